@@ -14,7 +14,7 @@ import math
 
 import numpy as np
 
-from ..core import AnalysisError, call_name, dotted, kwarg
+from ..core import AnalysisError, ClassInfo, call_name, dotted, kwarg
 from .. import fdx, fold
 
 I2 = np.eye(2, dtype=complex)
@@ -353,6 +353,18 @@ def parametric_rule(ctx, repo):
                             so['phase'] = so['phi']
                         sub = fdx.NumInterp({'self': so}, call_hook=lambda c2, i2: call_hook(c2, i2, other))
                         return np.array(sub.call(other.methods['_unitary_']), dtype=complex)
+                    # ... or of a table-defined eigen-gate family of the library: its matrix comes from the extracted eigen-components
+                    lib = repo.resolve_in_func(ci.mod, fn, dotted(inner.func) or '')
+                    if isinstance(lib, ClassInfo) and '_eigen_components' in {m_ for c_ in repo.mro(lib) for m_ in c_.methods}:
+                        kws = {k.arg: it.ev(k.value) for k in inner.keywords}
+                        pos = [it.ev(a_) for a_ in inner.args]
+                        owner = next(c_ for c_ in repo.mro(lib) if '_eigen_components' in c_.methods)
+                        comps_, _ = _components(repo, owner, 2)
+                        if lib.name in ('Rx', 'Ry', 'Rz'):
+                            e_, sh_ = kws.get('rads', pos[0] if pos else 0) / np.pi, -0.5
+                        else:
+                            e_, sh_ = kws.get('exponent', pos[0] if pos else 1.0), kws.get('global_shift', 0.0)
+                        return sum(np.exp(1j * np.pi * e_ * (t_ + sh_)) * m_ for t_, m_ in comps_)
                 return NotImplemented
             it = fdx.NumInterp({'self': self_obj}, call_hook=call_hook)
             try:
